@@ -203,6 +203,8 @@ def gen_datagram(rng, directed=False, kinds=None, small_header=None):
     dv = Distinct(rng, directed)
     v6 = rng.random() < 0.3
     agent = bytes(dv.val(1) for _ in range(16 if v6 else 4))
+    if rng.random() < 0.08:
+        agent = bytes(len(agent))          # an agent that has no address configured: 0.0.0.0 / :: is what the datagram says, and what is published
     sub, seq, up = dv.val(4), dv.val(4), dv.val(4)
     if small_header is not None:
         # header words that look like counts and sample tags (1 sample, type 1 / 2, a listed filter entry): anything that reads the
